@@ -78,7 +78,8 @@ def gen_desc(r, max_total=200, enc=False):
         if r.random() < 0.5:   # vary insertion position
             d = dict(sorted(d.items(), key=lambda kv: r.random()))
     elif r.random() < 0.15:
-        d[0xC2] = r.choice([b"\x00", b"\x01", b"", b"\x02\x00"])   # ENC tag present but not SESSIONKEY
+        # ENC tag present but not the one-byte SESSIONKEY value (incl. values that are 2 as integers)
+        d[0xC2] = r.choice([b"\x00", b"\x01", b"", b"\x02\x00", b"\x00\x02", b"\x00\x00\x02", b"\x02\x02"])
     return d
 
 
